@@ -65,6 +65,7 @@ class FakeS3:
         self.put_log = []  # applied writes: (step, key, actor, etag_before, etag_after)
         self.history = {}  # key -> [(step, body|None)]  (every applied write / delete)
         self.req_log = []  # (step, op, key, actor)
+        self.times = {}  # (key, step) -> server clock (ms) of every applied change
 
     def _pt(self, label, key):
         if SYM_MARK in key:
@@ -100,6 +101,7 @@ class FakeS3:
         from vf.rigs.world import actor
         self.put_log.append((self.world.step, Key, actor(), before, self.ver))
         self.history.setdefault(Key, []).append((self.world.step, Body))
+        self.times[(Key, self.world.step)] = self.world.clock.peek()
         r = {"ETag": self._et(Key)}
         self._pt("put<", Key)
         return r
@@ -130,6 +132,7 @@ class FakeS3:
         self._pt("del>", Key)
         if Key in self.o:
             self.history.setdefault(Key, []).append((self.world.step, None))
+            self.times[(Key, self.world.step)] = self.world.clock.peek()
         self.o.pop(Key, None)
         self._pt("del<", Key)
         return {}
